@@ -208,7 +208,8 @@ func (e *ex) abortPending() {
 		case <-pc.done:
 		case <-time.After(2 * time.Second):
 		}
-		if pc.rw.Code == 200 { // accounted like any accepted configuration
+		if pc.rw.Code == 200 && e.tsl != nil { // accounted like any accepted configuration
+			e.collect(e.tsl)
 			for _, sh := range pc.shapes {
 				if !sh.null {
 					e.cfgLoops++
